@@ -557,8 +557,19 @@ def state_log(obs: Obs) -> dict[int, list[tuple[int, str]]]:
 def oracle_c05(obs: Obs) -> list[Violation]:
     v: list[Violation] = []
     cur: dict[int, str] = {}
+    tr_conn: dict[int, int] = {}
+    lost: dict[int, dict] = {}
     for e in obs.trace:
         k = e["kind"]
+        if k == "transport_new" and e.get("conn") is not None:
+            tr_conn[e["tr"]] = e["conn"]
+        elif (k == "eof" or (k == "connection_lost" and e.get("exc"))) and e.get("tr") in tr_conn:
+            # the transport has just told the library that the link is gone (EOF read / connection_lost with an
+            # error): that fatal error takes effect there and then, whatever else the connection is waiting for
+            lost.setdefault(tr_conn[e["tr"]], e)
+        elif k == "state" and e["conn"] in lost and e["value"].name != "CLOSED":
+            le = lost[e["conn"]]
+            v.append(Violation("C05", f"c05:fatal-error-undone:{e['value'].name}-after-{le['kind']}", f"conn{e['conn']}: the transport reported {le['kind']} at seq {le['seq']} t={le['t']}, yet the state was set to {e['value'].name} at seq {e['seq']} t={e['t']}"))
         if k == "on_stop":
             # the stop callback is the notification that the session is over: the connection it belongs to must
             # already be in the closed state and must not report 'connected' any more
@@ -940,6 +951,12 @@ def slow_hello_disconnect_sweep():
     disconnect caller gives up, then the link is lost."""
     for noise in (False, True):
         for login in (False, True):
+            # hello answered after 6.25 s -- the disconnect has given up waiting for the connect and recorded its
+            # timeout -- with the link lost / fatal bytes right behind the answer, in the same loop turn
+            for ht in ("eof", "reset"):
+                yield {"noise": noise, "login": login, "flow": "connect", "K": 8.0, "final_at": 400.0, "latency": 400, "hello_then": ht, "events": [{"do": "disconnect", "at": 30}]}
+            for extra in (["garbage"], ["badproto"], ["state", "garbage"]):
+                yield {"noise": noise, "login": login, "flow": "connect", "K": 8.0, "final_at": 400.0, "latency": 400, "hello_extra": extra, "events": [{"do": "disconnect", "at": 30}]}
             for c2 in ({"do": "eof"}, {"do": "reset"}, {"do": "chunk", "frames": ["garbage"]}, {"do": "writefail_raise"}):
                 # hello never answered (latency 30 s): lost 2 s into the DisconnectResponse wait
                 yield {"noise": noise, "login": login, "flow": "connect", "K": 8.0, "final_at": 400.0, "latency": 64 * 30,
